@@ -295,12 +295,15 @@ alloc_done:
                     beg = (op->a[3] % 4 == 0) ? end : (op->a[3] % 4 == 1) ? 0 : (size_t)(op->a[5] % (end + 1));
                     if (end > ma->len) PROBE("slice_beyond_own_length");
                 } else {
-                    switch (op->a[2] % 6) {
+                    switch (op->a[2] % 9) {
                     case 0: end = room + 1; beg = 0; ctx = "end-past-buffer"; break;
                     case 1: end = SIZE_MAX; beg = 0; ctx = "end-max"; break;
                     case 2: end = SIZE_MAX - ma->off; beg = 0; ctx = "off+end-max"; break;
                     case 3: end = SIZE_MAX - ma->off + 1; beg = 0; ctx = ma->off ? "off+end-wraps" : "end-zero"; break;
                     case 4: end = (size_t)(op->a[4] % (room + 1)); beg = end + 1; ctx = "end-lt-beg"; break;
+                    case 6: end = (size_t)(op->a[4] % (room + 1)); beg = SIZE_MAX - (size_t)(op->a[5] % 3); ctx = "beg-max"; break;
+                    case 7: end = (size_t)(op->a[4] % (room + 1)); beg = SIZE_MAX / 2 + 2 + (size_t)(op->a[5] % 4); ctx = "beg-half-max"; break;
+                    case 8: end = (size_t)(op->a[4] % (room + 1)); beg = SIZE_MAX - ma->off + (size_t)(op->a[5] % 2); ctx = "beg-max-off"; break;
                     default: end = SIZE_MAX - ma->off + 1 + (size_t)(op->a[4] % 3); beg = 0; ctx = ma->off ? "off+end-wraps" : "end-small"; break;
                     }
                     must_abort = end < beg || (u128)ma->off + (u128)end > (u128)mb[ma->buf].nm;
